@@ -383,13 +383,13 @@ theorem contStep_plain (s : ContState) (c : Chunk) (rid : String)
     (hr : c.runId = some rid) (hs : c.subruns = none) (hl : s.lastRun = some (some rid)) :
     contStep s c =
       match s.lastEnd with
-      | some e => if c.start = e then .ok { lastEnd := some c.stop, lastRun := some (some rid), lastSubrun := none }
+      | some e => if c.start = e then .ok { lastEnd := some c.stop, lastRun := some (some rid), lastSubrun := none, lastSubIsNone := true }
                   else .error .valueError
-      | none => .ok { lastEnd := some c.stop, lastRun := some (some rid), lastSubrun := none } := by
+      | none => .ok { lastEnd := some c.stop, lastRun := some (some rid), lastSubrun := none, lastSubIsNone := true } := by
   have hsup : c.isSuperrun = false := by simp [Chunk.isSuperrun, hs]
   have hpc : c.promisedContinuity = true := by simp [Chunk.promisedContinuity, hsup]
   have hls : c.lastSubrun = none := by simp [Chunk.lastSubrun, hsup]
-  obtain ⟨le, lr, ls⟩ := s
+  obtain ⟨le, lr, ls, lsn⟩ := s
   simp only at hl
   subst hl
   unfold contStep
@@ -397,11 +397,11 @@ theorem contStep_plain (s : ContState) (c : Chunk) (rid : String)
   cases le <;> simp [bind, Except.bind, pure, Except.pure, throw, throwThe, MonadExceptOf.throw]
 
 theorem contStep_first (c : Chunk) (rid : String) (hr : c.runId = some rid) (hs : c.subruns = none) :
-    contStep {} c = .ok { lastEnd := some c.stop, lastRun := some (some rid), lastSubrun := none } := by
+    contStep {} c = .ok { lastEnd := some c.stop, lastRun := some (some rid), lastSubrun := none, lastSubIsNone := true } := by
   have hsup : c.isSuperrun = false := by simp [Chunk.isSuperrun, hs]
   have hls : c.lastSubrun = none := by simp [Chunk.lastSubrun, hsup]
   unfold contStep
-  simp [hr, hsup, hls, pure, Except.pure]
+  simp [hr, hsup, hls, pure, Except.pure, bind, Except.bind]
 
 /-- a stream of one ordinary run, entered with the previous end `e` known -/
 def breakFrom (e : Int) : List Chunk → Bool
@@ -417,7 +417,7 @@ theorem hasBreak_cons (c : Chunk) (rest : List Chunk) : hasBreak (c :: rest) = b
 
 theorem targetStreamFrom_plain (rid : String) :
     ∀ (cs : List Chunk) (e : Int), plainStream rid cs = true →
-      let st : ContState := { lastEnd := some e, lastRun := some (some rid), lastSubrun := none }
+      let st : ContState := { lastEnd := some e, lastRun := some (some rid), lastSubrun := none, lastSubIsNone := true }
       ((targetStreamFrom st cs).2 = if breakFrom e cs then some .valueError else none) ∧
       breakFrom e (targetStreamFrom st cs).1 = false ∧
       (targetStreamFrom st cs).1 <+: cs ∧
@@ -430,11 +430,11 @@ theorem targetStreamFrom_plain (rid : String) :
     simp only [plainStream, List.all_cons, Bool.and_eq_true, beq_iff_eq] at hp
     obtain ⟨⟨hr, hs⟩, hrest⟩ := hp
     have hs' : c.subruns = none := by simpa using hs
-    have hstep := contStep_plain { lastEnd := some e, lastRun := some (some rid), lastSubrun := none } c rid hr hs' rfl
+    have hstep := contStep_plain { lastEnd := some e, lastRun := some (some rid), lastSubrun := none, lastSubIsNone := true } c rid hr hs' rfl
     simp only at hstep
     by_cases hbe : c.start = e
-    · have h2 : contStep { lastEnd := some e, lastRun := some (some rid), lastSubrun := none } c
-          = .ok { lastEnd := some c.stop, lastRun := some (some rid), lastSubrun := none } := by
+    · have h2 : contStep { lastEnd := some e, lastRun := some (some rid), lastSubrun := none, lastSubIsNone := true } c
+          = .ok { lastEnd := some c.stop, lastRun := some (some rid), lastSubrun := none, lastSubIsNone := true } := by
         rw [hstep]; simp [hbe]
       have ih' := ih c.stop (by simpa [plainStream] using hrest)
       simp only at ih'
@@ -445,7 +445,7 @@ theorem targetStreamFrom_plain (rid : String) :
       · intro hb
         have := i4 (by simpa using hb)
         simp [this]
-    · have h2 : contStep { lastEnd := some e, lastRun := some (some rid), lastSubrun := none } c
+    · have h2 : contStep { lastEnd := some e, lastRun := some (some rid), lastSubrun := none, lastSubIsNone := true } c
           = .error .valueError := by
         rw [hstep]; simp [hbe]
       simp only [targetStreamFrom, h2, breakFrom]
